@@ -80,6 +80,10 @@ Direct(v, p, d) ==
       [] IsSACKv(v) -> DirectSACK(p, d)
       [] OTHER -> FALSE
 Answers(v, strict, p, d) == Quotes(v, strict, p, d) \/ Direct(v, p, d)
+\* The caveat of C01: a direct TCP reply without a per-probe identifier may be credited to the most recently sent probe.
+\* That is every SYN-ACK/RST in default mode (one sequence number for the whole run) and a bare RST (no ack number) in
+\* Paris mode; a Paris-mode SYN-ACK / RST-ACK carries the probe's own sequence number + 1 and identifies its probe.
+Caveat(v, d) == IsSYNv(v) /\ (v = "tcp" \/ ~HasFlag(d, ACK))
 
 (***************************************************************************)
 (* Proof-of-arrival forms (C04).  target = the probe's destination.        *)
@@ -149,7 +153,9 @@ BackedBy(H, snt, dl, h) ==
         /\ \/ Quotes(V(H), H.par.strict, snt[j].p, d)
            \/ /\ ~IsSYNv(V(H))
               /\ Direct(V(H), snt[j].p, d)
-           \/ /\ IsSYNv(V(H))            \* caveat: credited to the most recently sent probe
+           \/ /\ IsSYNv(V(H)) /\ ~Caveat(V(H), d)
+              /\ Direct(V(H), snt[j].p, d)
+           \/ /\ Caveat(V(H), d)         \* caveat: credited to the most recently sent probe
               /\ \E k \in 1..j : Direct(V(H), snt[k].p, d)
               /\ \A j2 \in DOMAIN snt : snt[j2].n < dl[i].n => j2 <= j
 
@@ -201,7 +207,7 @@ C04_run(H, snt, dl, hops) ==
             C == {<<i, j>> \in (DOMAIN dl) \X js :
                      /\ dl[i].n > snt[j].n /\ PktOf(H, dl[i]).src = h.addr
                      /\ \/ Answers(V(H), H.par.strict, snt[j].p, PktOf(H, dl[i]))
-                        \/ IsSYNv(V(H)) /\ \E kk \in 1..j : Direct(V(H), snt[kk].p, PktOf(H, dl[i]))}
+                        \/ Caveat(V(H), PktOf(H, dl[i])) /\ \E kk \in 1..j : Direct(V(H), snt[kk].p, PktOf(H, dl[i]))}
             IsD(c) == \E kk \in 1..c[2] : DestForm(V(H), snt[kk].p, PktOf(H, dl[c[1]])) /\ PktOf(H, dl[c[1]]).src = snt[kk].p.dst
         IN h.addr # "" =>
              /\ (h.dest => \E c \in C : IsD(c))
@@ -218,7 +224,7 @@ C05_run(H, snt, dl, hops) ==
              \E j \in DOMAIN snt : snt[j].ttl = h.ttl /\
                LET A == {i \in DOMAIN dl : dl[i].n > snt[j].n /\ PktOf(H, dl[i]).src = h.addr
                             /\ (Answers(V(H), H.par.strict, snt[j].p, PktOf(H, dl[i]))
-                                \/ (IsSYNv(V(H)) /\ \E kk \in 1..j : Direct(V(H), snt[kk].p, PktOf(H, dl[i]))))}
+                                \/ (Caveat(V(H), PktOf(H, dl[i])) /\ \E kk \in 1..j : Direct(V(H), snt[kk].p, PktOf(H, dl[i]))))}
                    \* the first accepted reply: the earliest one, or the earliest destination-form one when it
                    \* replaced a non-destination reply
                    first == CHOOSE i \in A : \A i2 \in A : dl[i].n <= dl[i2].n
@@ -411,7 +417,7 @@ C15_run(H) ==
     /\ H.out.ok => (Len(H.out.runs) = H.par.queries /\ Len(H.out.rtts_us) = H.par.e2e /\ ff = {})
     /\ ff # {} => /\ ~H.out.ok /\ ~H.out.has_result
                   /\ \A i \in ff : H.flt[i].class = "fatal" => HasCause(H.out, CauseName(H.flt[i]))
-    /\ ff = {} => H.out.ok                       \* in particular a failing public-IP lookup never fails the request
+    /\ (ff = {} /\ H.cancel < 0) => H.out.ok     \* in particular a failing public-IP lookup never fails the request
     /\ H.out.ok => (H.out.pub = IF H.par.public_ip /\ H.par.pub_mode = "ok" THEN "203.0.113.77" ELSE "")
 
 \* C19: parameters honoured exactly or rejected (expect = the meaning assigned by GenRun!Expect)
